@@ -86,7 +86,7 @@ class Build:
             self.gen_report[fname] = rep
             for k, v in rep.items():
                 if v["status"] != "ok":
-                    self.broken.append(("fragment", k, v.get("error", "")))
+                    self.broken.append(("fragment", k, v.get("error", ""), [fname]))
         # site extractors: tools/sitegen/*.py, each with generate(repo) -> ({file name: coq text}, report)
         sg = os.path.join(VERIF, "tools", "sitegen")
         if os.path.isdir(sg):
@@ -100,14 +100,57 @@ class Build:
                     sp.loader.exec_module(m)
                     files, rep = m.generate(REPO)
                 except Exception as ex:  # noqa: BLE001  (fail-closed: record, keep going)
-                    self.broken.append(("site", fn, f"{type(ex).__name__}: {ex}"))
+                    self.broken.append(("site", fn, f"{type(ex).__name__}: {ex}", ["S_" + fn[:-3] + ".v"]))
                     continue
                 for name, text in files.items():
                     self._write_if_changed(os.path.join(gen, name), text)
                 self.gen_report[fn] = rep
                 for k, v in rep.items():
                     if isinstance(v, dict) and v.get("status") == "failed":
-                        self.broken.append(("site", k, v.get("error", "")))
+                        self.broken.append(("site", k, v.get("error", ""), list(files.keys())))
+
+    def module_files(self):
+        """short module name -> path relative to the scratch dir"""
+        out = {}
+        for root, _d, files in os.walk(self.dir):
+            for fn in files:
+                if fn.endswith(".v"):
+                    out[fn[:-2]] = os.path.relpath(os.path.join(root, fn), self.dir)
+        return out
+
+    def closure(self, roots):
+        """transitive `Require Import` closure (files of this development only) of the given .v files"""
+        mf = self.module_files()
+        seen, todo = set(), list(roots)
+        while todo:
+            f = todo.pop()
+            if f in seen or not os.path.exists(os.path.join(self.dir, f)):
+                continue
+            seen.add(f)
+            txt = strip_comments(open(os.path.join(self.dir, f)).read())
+            for m in re.finditer(r"Require\s+(?:Import|Export)\s+([^.]*(?:\.[A-Za-z][^.]*)*)\.\s", txt + " "):
+                for name in m.group(1).split():
+                    short = name.split(".")[-1]
+                    if short in mf:
+                        todo.append(mf[short])
+        return seen
+
+    def ensure_modules(self, imports):
+        """full .vo build of every module of this development named in an import string"""
+        mf = self.module_files()
+        names = set()
+        for m in re.finditer(r"Require\s+(?:Import|Export)\s+([^.]*(?:\.[A-Za-z][^.]*)*)\.", imports):
+            for name in m.group(1).split():
+                short = name.split(".")[-1]
+                if short in mf:
+                    names.add(short)
+        names -= getattr(self, "_built", set())
+        if names:
+            ok, out = self.make([mf[n][:-2] + ".vo" for n in sorted(names)], timeout=1500)
+            if not ok:
+                raise CoqEvalError("build of judge modules failed:\n" + "\n".join(out.splitlines()[-20:]))
+            self._built = getattr(self, "_built", set()) | names
+        return names
 
     def changed_gen(self):
         """names of generated files that differ from the committed reference copy in coq/Gen"""
@@ -156,13 +199,16 @@ class Build:
         ok, out = self.make([prop_file[:-2] + ".vo"], timeout)
         return ok, parse_assumptions(out), out
 
-    def hygiene(self):
-        """forbidden vernacular anywhere in the scratch development (comments stripped)"""
+    def hygiene(self, only=None):
+        """forbidden vernacular in the scratch development (comments stripped); `only`: restrict to
+        these files (relative paths) — the import closure of the property's theorems and judges"""
         bad = []
         for root, _d, files in os.walk(self.dir):
             for fn in files:
                 if fn.endswith(".v"):
                     p = os.path.join(root, fn)
+                    if only is not None and os.path.relpath(p, self.dir) not in only:
+                        continue
                     txt = strip_comments(open(p).read())
                     depth = 0
                     for i, line in enumerate(txt.splitlines(), 1):
@@ -182,6 +228,10 @@ class Build:
     def eval_cases(self, name, header, body_chunks, timeout=300, jobs=16):
         """Write Corr/<name>_<k>.v = header + chunk, run coqc on each in parallel, return the
         list of outputs (one string per chunk) or raises on Coq error."""
+        # the modules the case files import must be (re)built against the regenerated Gen files first
+        self.ensure_modules(header)
+        self.judge_modules = getattr(self, "judge_modules", set()) | set(
+            " ".join(re.findall(r"Require\s+(?:Import|Export)\s+([^.]+)\.", header)).split())
         cdir = os.path.join(self.dir, "Corr")
         os.makedirs(cdir, exist_ok=True)
         files = []
